@@ -41,6 +41,8 @@ def finish(prop, tier, seed, nshards, results, inconclusive, wall, verif, write_
             inconclusive.append("deciding monitor/counter '%s' observed nothing" % name)
     if evaluations == 0:
         inconclusive.append("no cases were executed")
+    if hasattr(mod, "post_merge"):
+        inconclusive.extend(mod.post_merge(counters, tier))
 
     known = {f["key"]: f for f in findings.for_property(verif, prop)}
     known_observed = []
